@@ -227,10 +227,11 @@ Proof.
   - inv_some H. eapply sinv_worker_nojob; [exact S|..]; try reflexivity.
     unfold after_getseq; cbn. destruct (w_cctx w); cbn; discriminate.
   - (* WGetBuf *)
-    destruct (negb _); [inv_some H; eapply sinv_worker_nojob; [exact S|..]; try reflexivity; cbn; discriminate|].
+    destruct (negb _); inv_some H; (eapply sinv_worker_nojob; [exact S|..]; try reflexivity; cbn; discriminate).
+  - (* WSetDst *)
     assert (G : forall w', w_slot w' = w_slot w -> w_pc w' <> WSerialZ ->
-                SInv cfg (set_w t w' (set_job (w_slot w) (j_set_dst true (getj s (w_slot w))) (set_pl (pl_bp (take (bp_nb (pl s))) (pl s)) s)))).
-    { intros w' E1 E2. eapply sinv_worker_job' with (w := w); eauto; try reflexivity; try (rewrite Epc; reflexivity); cbn [j_set_dst j_done j_consumed j_size j_id].
+                SInv cfg (set_w t w' (set_job (w_slot w) (j_set_dst true (getj s (w_slot w))) s))).
+    { intros w' E1 E2. eapply sinv_worker_job' with (w := w) (X := s); eauto; try reflexivity; try (rewrite Epc; reflexivity); cbn [j_set_dst j_done j_consumed j_size j_id].
       - intros X. destruct (k_wrk _ _ K t w Hw) as (i & Hi & E & _); [rewrite Epc; reflexivity|]. rewrite E in *. apply (s_jd _ _ S); auto.
       - intros X. contradiction.
       - intros Z E. destruct (s_cz _ _ S Z) as (_ & D). rewrite E. exact D. }
